@@ -29,7 +29,8 @@ ASSUMPTIONS = [
 ]
 OPEN_STATEMENTS = ["the environment's half of a fair round (created pods become planning items holding a Ready pod, deleted pods disappear, "
                    "terminating ones are finalised) is a statement about the API server and the kubelet: exercised by the histories, not "
-                   "proved; the controller's half - the budgets of the real plan are those of the abstract sync - is C02_plan_projects"]
+                   "proved; the controller's half is: C02_plan_projects (budgets) and C02_sync_projects (the items after any admissible choice "
+                   "of the sync abstract to a_sync of the items before)"]
 CODES = {
     1: "model does not predict the reconcile",
     10: "at rest an eligible node does not run exactly one Ready pod built from the live template",
